@@ -45,6 +45,11 @@ CHECKS = {
    text="Exhaustive over the 14 units x amount table x 480 contexts for value()/to_mm/to_cm/to_inch (resolved value or 'stays symbolic') and over all ordered unit pairs for + - += / < <= > >= == != ; expected values come from the CSS ratios written once in TLA+ (Cycle, ContextFree, Reflexive are invariants of the spec). A result returned for an incommensurable pair must be correct in both contexts, so guessing is detected while ValueError/symbolic results are accepted.",
    note="Trusted: TLC, Rat.tla, CssLength.tla, amount spelling code; tolerance 1e-9 relative. Known findings: the 6-digit mm/cm constants (pinned by test_length.py) and the ties they break.",
    design="5/C12"),
+ "C13": dict(
+   technique="TLA+ Color/ColorTable (keyword table, hex digit arithmetic, rgb/percent clamping, CSS3 HSL algorithm and its inverse in exact rationals) enumerated by TLC; every spelling and every accessor write history replayed into Color",
+   text="Exhaustive: all 147 keywords (4 letter-case variants, plus none/transparent), every 3- and 4-digit hex string, 6-/8-digit hex on a byte grid, rgb()/rgba() with numbers and percentages (out-of-range, fractional, negative, optional alpha), hsl()/hsla() with hues beyond a turn; each with RGBA from the spec, and the packed/hex accessors cross-checked on every parsed colour with Color(c.hex) == c. Accessor machine: histories of channel/opacity/packed/hex/HSL writes with the expected colour (SetterIsolation is an action property of the spec), HSL reads compared with the spec's ToHsl.",
+   note="Trusted: TLC, Color.tla, the keyword table typed once (it agrees with the library on 146/147 entries; the 147th was the aliceblue defect). Real-valued channels may round either way; HSL channels +-1 LSB; hue units (deg/turn) in hsl() are CSS Color 4 and not demanded; alpha after the 24-bit rgb/bgr setters is unspecified.",
+   design="5/C13"),
 }
 NOT_BUILT = "check not built yet (planned: DESIGN.md section 5)"
 
